@@ -142,4 +142,117 @@ static void churn_gen(Ctx& ctx) {
     });
 }
 
+// ------------------------------------------------------------------------------------------- free functions under churn
+// "Free functions ... may be used from any number of threads at once ... each call returns what it would return single-threaded":
+// a value memoised between calls in shared (even atomic - no race to report) storage only goes wrong when two threads interleave
+// inside it, so volume decides.  2..16 threads call small pure functions (windows with a parameter, filter designs, number theory,
+// small transforms and estimators, scalar and array random draws after a per-thread rng(seed)) thousands of times with arguments
+// that differ between threads; every result is hashed and compared with the same sequence run alone in a fresh thread.
+namespace {
+uint64_t hbi(const arr_int& a) { uint64_t h = 0xC09B; for (int i = 0; i < a.size(); ++i) h = mix(h, uint64_t(uint32_t(a[i]))); return mix(h, uint64_t(a.size())); }
+uint64_t hd(double v) { uint64_t u; memcpy(&u, &v, 8); return u; }
+const int FF_NFN = 20;
+const char* ff_name(int f) {
+    static const char* n[FF_NFN] = {"kaiser", "gauss", "tukey", "hamming/hann", "fir1", "design_multirate_fir", "primes", "factor", "nextprime/isprime", "resample(n,beta)", "czt", "hilbert", "welch", "xcorr",
+                                    "randn()", "rand()", "randi(int)", "randi(range)", "rand(range,n)", "randi(int,n)"};
+    return n[f % FF_NFN];
+}
+uint64_t ff_call(int fn, int a, int b, uint64_t tag) {
+    const int n = 8 + (a * 7) % 57;
+    switch (fn % FF_NFN) {
+    case 0: return hb(window::kaiser(n, 0.5 + 1.25 * b));
+    case 1: return hb(window::gauss(n, 0.5 + 0.5 * b));
+    case 2: return hb(window::tukey(n, 0.1 * (b % 11)));
+    case 3: return (b & 1) ? hb(window::hamming(n, (b & 2) != 0)) : hb(window::hann(n, (b & 2) != 0));
+    case 4: return hb(fir1(2 * (1 + a % 20), 0.05 + 0.04 * (b % 20)));
+    case 5: return hb(design_multirate_fir(1 + a % 7, 1 + b % 7));
+    case 6: return hbi(primes(uint32_t(10 + a * 97 + b)));
+    case 7: return hbi(factor(uint32_t(1000003u * uint32_t(a + 1) + uint32_t(b))));
+    case 8: return mix(uint64_t(nextprime(uint32_t(a * 7919 + b))), uint64_t(isprime(uint32_t(a * 104729 + b))));
+    case 9: return hb(resample(rin(40 + a, tag), 1 + a % 5, 1 + b % 5, 4 + b % 7, 2.0 + b));
+    case 10: return hb(czt(cin(n, tag), 1 + b * 3, expj(-2 * pi * 0.7 / n), cmplx_t(1.0)));
+    case 11: return hb(real(hilbert(rin(n, tag)))) ^ hb(imag(hilbert(rin(n, tag))));
+    case 12: { auto w = welch(rin(64 + n, tag), 32, 16 + b % 8, 32); return mix(hb(w.pxx), hb(w.f)); }
+    case 13: return hb(xcorr(rin(n, tag), rin(5 + b, tag + 1)));
+    case 14: return hd(randn());
+    case 15: return hd(dsplib::rand());
+    case 16: return uint64_t(uint32_t(randi(1 + a)));
+    case 17: return uint64_t(uint32_t(randi({-5 - a, 5 + b})));
+    case 18: return hb(dsplib::rand({-1.0 - a, 2.0 + b}, 3 + b));
+    default: return hbi(randi(1 + a, 3 + b));
+    }
+}
+}   // namespace
+
+VK_SUB(ffc, "free_function_churn");
+static void ffc_check(const Json& c, Out& o) {
+    std::vector<std::vector<int>> prog;   // per thread: flattened (fn, a, b, reps)
+    long calls = 0;
+    for (auto& t : c.at("threads").a) { std::vector<int> v; for (auto& e : t.a) v.push_back(int(e.integer())); prog.push_back(v); for (size_t i = 0; i + 3 < v.size(); i += 4) calls += v[i + 3]; }
+    const int T = int(prog.size());
+    const uint64_t seed = c.getu("seed");
+    auto run_thread = [&](int t, std::vector<uint64_t>& out) {
+        rng(int(mix(seed, uint64_t(t)) & 0x7FFFFFFF));
+        const auto& v = prog[size_t(t)];
+        for (size_t i = 0; i + 3 < v.size(); i += 4) {
+            uint64_t h = 0xFF;
+            for (int r = 0; r < v[i + 3]; ++r) h = mix(h, ff_call(v[i], v[i + 1] + (r & 3), v[i + 2] + ((r >> 2) & 3), mix(seed, uint64_t(t) * 100 + i)));
+            out.push_back(h);
+        }
+    };
+    for (int round = 0, rounds = replay_rounds(25); round < rounds && !o.failed; ++round)
+    run_forked(o, 600.0, [&](Out& co) {
+        std::vector<std::vector<uint64_t>> got(static_cast<size_t>(T)), ref(static_cast<size_t>(T));
+        std::vector<std::string> errs(static_cast<size_t>(T));
+        std::atomic<int> ready{0};
+        std::atomic<bool> go{false};
+        std::vector<std::thread> th;
+        for (int t = 0; t < T; ++t)
+            th.emplace_back([&, t]() {
+                ready.fetch_add(1);
+                while (!go.load()) std::this_thread::yield();
+                try { run_thread(t, got[size_t(t)]); } catch (const std::exception& e) { errs[size_t(t)] = e.what(); }
+            });
+        while (ready.load() < T) std::this_thread::yield();
+        go.store(true);
+        for (auto& x : th) x.join();
+        for (int t = 0; t < T; ++t) { std::thread r([&]() { run_thread(t, ref[size_t(t)]); }); r.join(); }
+        for (int t = 0; t < T && !co.failed; ++t) {
+            if (!errs[size_t(t)].empty()) { co.fail("mt:exception", fmt("thread %d threw: %s", t, errs[size_t(t)].c_str())); break; }
+            for (size_t i = 0; i < ref[size_t(t)].size(); ++i)
+                if (i >= got[size_t(t)].size() || got[size_t(t)][i] != ref[size_t(t)][i]) {
+                    co.fail(std::string("mt:result-differs:") + ff_name(prog[size_t(t)][4 * i]), fmt("thread %d op %zu (%s a=%d b=%d x%d): results differ from the same calls made alone", t, i, ff_name(prog[size_t(t)][4 * i]), prog[size_t(t)][4 * i + 1], prog[size_t(t)][4 * i + 2], prog[size_t(t)][4 * i + 3]));
+                    break;
+                }
+        }
+    });
+    o.evals = calls;
+    std::set<int> fns;
+    for (auto& v : prog) for (size_t i = 0; i + 3 < v.size(); i += 4) fns.insert(v[i] % FF_NFN);
+    for (int f : fns) o.label(std::string("fn:") + ff_name(f));
+    o.label(fmt("threads:%s", T <= 2 ? "2" : T <= 4 ? "3-4" : T <= 8 ? "5-8" : "9-16"));
+    if (T >= 2 && calls >= 100) o.nontrivial(mix(seed, uint64_t(calls)));
+}
+static void ffc_gen(Ctx& ctx) {
+    ctx.no_shrink = true;
+    ctx.rc("churn", ctx.by_tier(16000, 160000), [&]() {
+        const int T = pick(2, pick(0, 2) == 0 ? 16 : 8);
+        Json threads = Json::array();
+        // most programs concentrate every thread on ONE function (different arguments per thread): maximal contention inside it
+        const int focus = pick(0, 3) == 0 ? -1 : pick(0, FF_NFN - 1);
+        for (int t = 0; t < T; ++t) {
+            std::vector<int> ops;
+            for (int i = pick(1, 3); i > 0; --i) {
+                const int fn = focus >= 0 ? focus : pick(0, FF_NFN - 1);
+                ops.push_back(fn);
+                ops.push_back(pick(0, 40));
+                ops.push_back(pick(0, 12));
+                ops.push_back(int(pick_log(50, (fn >= 6 && fn <= 13 && fn != 8) ? 400 : 4000)));
+            }
+            threads.push(Json(ops));
+        }
+        return Json::object().set("threads", threads).set("seed", (long long)(seed64() >> 12));
+    });
+}
+
 VK_MAIN("C09")
